@@ -88,6 +88,12 @@ func c14Build(rng *rand.Rand, nh, kmax int, big, openPipelined bool, maxTx uint3
 					ln = []uint32{32768, 65536, 262144}[rng.Intn(3)]
 				}
 				off := uint64((j*4099 + rng.Intn(4000)) % (h.size - 1))
+				if h.mode == "rw" { // stay inside the part no write touches
+					if ln > 32768 {
+						ln = 32768
+					}
+					off = uint64(rng.Intn(c14Pre - int(ln) + 1))
+				}
 				n := ln
 				if n > txMax {
 					n = txMax
@@ -162,7 +168,8 @@ func c14PrepStore(st *pgStore, p *c14Prog) {
 }
 
 // c14Check: statuses, payloads (the part of the property visible on the wire).
-func c14Check(p *c14Prog, resps []*rawResp) (bool, string) {
+// tolerate: a READ/WRITE answered STATUS 4 is counted, not failed (openpipe: the request overtook the OPEN whose handle it guessed).
+func c14Check(p *c14Prog, resps []*rawResp, tolerate bool, overtaken *int) (bool, string) {
 	if ok, why := pgCheckStream(p.reqs, resps); !ok {
 		return false, why
 	}
@@ -176,6 +183,10 @@ func c14Check(p *c14Prog, resps []*rawResp) (bool, string) {
 			}
 		case fxpRead:
 			d, ok := rs.data()
+			if code, _ := rs.statusCode(); !ok && tolerate && code == 4 {
+				*overtaken++
+				continue
+			}
 			if !ok {
 				code, _ := rs.statusCode()
 				return false, fmt.Sprintf("io-before-close-failed: READ on handle %d (sent before its CLOSE) answered STATUS %d", h, code)
@@ -184,6 +195,10 @@ func c14Check(p *c14Prog, resps []*rawResp) (bool, string) {
 				return false, fmt.Sprintf("read-content: READ on handle %d returned %d bytes that differ from the file (expected %d)", h, len(d), len(p.want[i]))
 			}
 		case fxpWrite:
+			if code, ok := rs.statusCode(); ok && tolerate && code == 4 {
+				*overtaken++
+				continue
+			}
 			if code, ok := rs.statusCode(); !ok || code != 0 {
 				return false, fmt.Sprintf("io-before-close-failed: WRITE on handle %d (sent before its CLOSE) answered STATUS %d", h, code)
 			}
@@ -212,13 +227,13 @@ func c14Content(p *c14Prog, get func(wire string) ([]byte, bool)) (bool, string)
 func runC14(c *Ctx) {
 	c.Rule("pipelines INIT, OPEN x h (h=1..4; read / write / read+write handles), then after the handles are known the interleaved sequences (READ|WRITE)^k CLOSE per handle (k<=32) " +
 		"as raw frames without waiting for replies; request server: all ReadAt/WriteAt calls are held at gates until the next unanswered CLOSE frame has been written, then released in seeded orders; " +
-		"os-backed server: 100-250 KB transfers; allocator off/on; kind openpipe additionally pipelines the OPENs with predicted handles. " +
+		"os-backed server: 100-250 KB transfers; allocator off/on; kind openpipe additionally pipelines the OPENs with predicted handles (there a transfer that overtakes its OPEN and is refused is tolerated, the Close clauses are still checked). " +
 		"non-trivial = at least 2 transfers precede a CLOSE and (request server) at least 2 backend calls were blocked at once when gates were opened or (os) a transfer of 100000+ bytes")
-	nProg, scheds := 60, 3
+	nProg, scheds := 300, 3
 	if c.Thorough() {
-		nProg, scheds = 700, 5
+		nProg, scheds = 2500, 5
 	}
-	stalls, rounds, mispred := 0, 0, 0
+	stalls, rounds, mispred, overtaken := 0, 0, 0, 0
 	for pi := 0; pi < nProg; pi++ {
 		seed := c.Rng.Int63()
 		nh := 1 + int(seed>>4)%4
@@ -245,9 +260,14 @@ func runC14(c *Ctx) {
 				down := in.shutdown()
 				g.setFree()
 				n := c.Case(kind, kvs("srv", "rs"), kvb("alloc", alloc), kvx("seed", uint64(seed)), kvi("handles", nh), kvi("kmax", kmax), kvi("sched", si), kvi("reqs", len(p.reqs)))
-				ok, why := c14Check(p, res.resps)
-				if ok {
+				ov := 0
+				ok, why := c14Check(p, res.resps, openPipe, &ov)
+				if ok && ov == 0 {
 					ok, why = c14Content(p, func(w string) ([]byte, bool) { return st.content("/" + w) })
+				}
+				overtaken += ov
+				if ov > 0 {
+					c.Stat("openpipe_cases_with_overtaken_open")
 				}
 				if ok {
 					// one backend object per handle, in open order
@@ -268,7 +288,7 @@ func runC14(c *Ctx) {
 							ok, why = false, fmt.Sprintf("close-overtook-io: %d ReadAt/WriteAt calls of handle %d were in flight inside Close()", o.closeInflight, i+1)
 						case atomic.LoadInt32(&o.late) != 0:
 							ok, why = false, fmt.Sprintf("io-after-close: %d ReadAt/WriteAt calls of handle %d started after Close()", o.late, i+1)
-						case int(atomic.LoadInt32(&o.calls)) != p.hs[i].nRW:
+						case int(atomic.LoadInt32(&o.calls)) != p.hs[i].nRW && ov == 0:
 							ok, why = false, fmt.Sprintf("call-count: %d backend calls for %d requests on handle %d", o.calls, p.hs[i].nRW, i+1)
 						}
 					}
@@ -326,9 +346,14 @@ func runC14(c *Ctx) {
 			res := pgRun(in, p.reqs, pgRunOpt{})
 			down := in.shutdown()
 			n := c.Case(kind, kvs("srv", "os"), kvb("alloc", cfg.alloc), kvx("maxtx", uint64(cfg.maxTx)), kvx("seed", uint64(seed)), kvi("handles", nh), kvi("kmax", kb), kvi("reqs", len(p.reqs)))
-			ok, why := c14Check(p, res.resps)
-			if ok {
+			ov := 0
+			ok, why := c14Check(p, res.resps, openPipe, &ov)
+			if ok && ov == 0 {
 				ok, why = c14Content(p, func(w string) ([]byte, bool) { b, err := os.ReadFile(dir + "/" + w); return b, err == nil })
+			}
+			overtaken += ov
+			if ov > 0 {
+				c.Stat("openpipe_cases_with_overtaken_open")
 			}
 			if ok && !down {
 				ok, why = false, "server-hang: Serve did not return within 5 s of closing the connection"
@@ -348,5 +373,6 @@ func runC14(c *Ctx) {
 			}
 		}
 	}
+	c.Diag("c14 openpipe: %d READ/WRITE requests overtook the pipelined OPEN whose handle they guessed (answered STATUS 4; tolerated: no client can know a handle before the OPEN reply)", overtaken)
 	c.Diag("c14 scheduler: %d full gate rounds; %d gates had to be opened before the CLOSE frame could be written (pipeline full); %d runs fell back to the 50 ms idle rule", rounds, stalls, mispred)
 }
